@@ -967,7 +967,9 @@ func tailReplay(scratch string, log []int) (msg string) {
 	_ = n.lc.Close()
 	n.lc = nil
 	fresh := newStore()
-	defer fresh.close()
+	// as in node.stop: the factory (block cache) stays open; a BecomeLeader that fails after the session manager
+	// started its listing leaves that goroutine behind, and its iterator must not outlive the cache
+	defer fsReg.Delete(fresh.dir)
 	lc, err := server.NewLeaderController(server.Config{NotificationsRetentionTime: time.Hour}, "ns", 1, n.rpc, n.walF, fresh.f)
 	if err != nil {
 		return "NewLeaderController: " + errStr(err)
